@@ -172,19 +172,21 @@ def c03_arms(report, cfg):
         ga = inst.get("generic_args", [])
         if ga and ga[0].get("ty") in ms:
             multi.setdefault(inst["def"], set()).add(ga[0]["ty"])
-    roots = {d for d, mset in multi.items() if len(mset) >= 2}
-    # a root is a multi-machine body that is not merely a callee of another machine-generic body
-    called_by_generic = set()
+    # a multi-backend body is a dispatch root when a workspace function that is NOT itself generic over a
+    # Machine calls it (an arm does; helpers are only reached from generic code, closures or fn-pointer shims)
+    roots = set()
     for k, inst in f.instances.items():
-        if not inst.get("body"):
+        if not inst.get("body") or f.defs[inst["def"]]["krate"] not in WORKSPACE_CRATES:
             continue
         ga = inst.get("generic_args", [])
-        if ga and ga[0].get("ty") in ms:
-            for _, t in graph.call_sites(inst):
-                ce = t.get("callee")
-                if ce and ce.get("inst") in f.instances:
-                    called_by_generic.add(f.instances[ce["inst"]]["def"])
-    roots = {d for d in roots if d not in called_by_generic or d in all_bodies}
+        if any(g.get("ty") in ms for g in ga):
+            continue
+        for _, t in graph.call_sites(inst):
+            ce = t.get("callee")
+            if ce and ce.get("inst") in f.instances:
+                d = f.instances[ce["inst"]]["def"]
+                if len(multi.get(d, ())) >= 2:
+                    roots.add(d)
     missing = sorted(roots - all_bodies)
     for d in missing:
         report.violated("R3.6", "unrecognised-dispatch:%s@%s" % (short(d, 120), cfg),
